@@ -8,6 +8,15 @@ LEVEL_NOTE = ("Seeded search, not proof: a clean batch is evidence for the runs 
               "engine checks the external dsharp/maxsatz binaries shipped with the repository, which run as real code.")
 
 CLAIMED = {
+ "C24": dict(
+    technique="deterministic simulation: PRNG seam of the parameter initialisation (seeded, adversarial values) and simulator-stepped EM iterations with per-step invariants; datasets sampled from an independent reference enumerator",
+    text="Narrow claim. The learner is stepped by the simulator (prepare(), then step() up to 12 times) instead of run(), with the module-level PRNG that initialises t(_) parameters "
+         "owned and seeded by the simulator (several initialisations per case, one with adversarial draws near 0 and 1). After every step: reported log-likelihood not below the "
+         "previous one, every weight a probability, every annotated disjunction summing to at most 1; on fully observed identifiable data the first step must give the relative "
+         "frequencies. Template programs with tunable facts, tunable ADs with/without bodies and fixed heads, hidden and observed atoms; complete and partial datasets sampled from "
+         "a reference parameterisation. The unchanged tree violates several clauses on programs with multi-head ADs (known findings F10, F24-F27); fact-only programs and every "
+         "unlisted crash site stay fully checked. Exploration level.",
+    design_ref="DESIGN.md §5 C24", quick_t=900, thorough_t=3600),
  "C22": dict(
     technique="deterministic simulation: PRNG seam with recording uniform draws (seeded, adversarial values), engine reuse history, virtual alarm inside sample()/estimate(); oracle = independent possible-world enumerator + Hoeffding bound",
     text="Inside problog.tasks.sample the PRNG is the simulator's: every uniform draw records the comparison made with it, so sequential annotated-disjunction sampling is checked "
